@@ -394,6 +394,22 @@ func c02Predicates(w *World, r *Report, a *FsmA, cmpFn *ssa.Function) {
 			}
 			return false
 		}
+		// the write path evaluates the predicates on the apply batch, made indexed beforehand
+		rd := call.Call.Args[0]
+		if mi, ok := rd.(*ssa.MakeInterface); ok {
+			rd = mi.X
+		}
+		if !a.isCtxFieldLoad(rd, a.BatchFld) {
+			obB.Violate("compare-reader@"+FnName(fn), call.Pos(), "the predicates of a transaction in the apply path are evaluated on `"+Expr(rd)+"`, not on the apply batch: writes of earlier entries of the same apply call are invisible to them")
+		} else {
+			isEnsure := func(in ssa.Instruction) bool {
+				c := plainCall(in)
+				return c != nil && StaticCallee(c) == a.Indexed
+			}
+			if p := (&Walk{Barrier: isEnsure, Target: func(in ssa.Instruction) bool { return in == ssa.Instruction(call) }}).Find(entry(fn)); p != nil {
+				obB.Violate("compare-before-indexed@"+FnName(fn), call.Pos(), "the predicates are evaluated on the batch before it was made indexed", w.PathString(p)...)
+			}
+		}
 		if p := (&Walk{Target: isApply, Barrier: func(in ssa.Instruction) bool { return in == ssa.Instruction(call) }}).Find(entry(fn)); p != nil {
 			obB.Violate("ops-before-compare@"+FnName(fn), instrPos(p.Hit), "operations of the transaction can be applied before its predicates are evaluated", w.PathString(p)...)
 		}
